@@ -289,10 +289,19 @@ func TestC07Contract(t *testing.T) {
 		}
 		paidThenAgain, otherSpelling, lockedSeen := false, false, false
 		n := rapid.IntRange(3, 10).Draw(rt, "steps")
+		// a third of the histories open with the sharpest race: a wallet the pool has never looked at deposits, the
+		// block's events are late, and the wallet withdraws twice before they arrive
+		opening := rapid.IntRange(0, 2).Draw(rt, "lateDepositOpening") == 0
+		openingWallet := rapid.IntRange(0, 1).Draw(rt, "openingWallet")
 		for i := 0; i < n; i++ {
 			w := f.wallets[rapid.IntRange(0, 1).Draw(rt, "wallet")]
-			acct := spell(w, home[w.addr])
 			op := rapid.SampledFrom([]string{"deposit", "deposit", "accrue", "accrue", "withdraw", "withdraw", "withdrawTwice", "withdrawTwice", "forceSettle", "lockedWithdraw"}).Draw(rt, "op")
+			forced := opening && i < 2
+			if forced {
+				w = f.wallets[openingWallet]
+				op = []string{"deposit", "withdrawTwice"}[i]
+			}
+			acct := spell(w, home[w.addr])
 			if op == "lockedWithdraw" {
 				// the owner starts taking the deposit out on chain (time lock) and asks the pool for a withdrawal as well
 				if f.onChainDeposit(w.addr).Sign() == 0 {
@@ -328,7 +337,7 @@ func TestC07Contract(t *testing.T) {
 				opts := bind.NewKeyedTransactor(w.key)
 				opts.Value = amt
 				held := ""
-				if rapid.IntRange(0, 2).Draw(rt, "holdEvents") == 0 {
+				if forced || rapid.IntRange(0, 2).Draw(rt, "holdEvents") == 0 {
 					f.provider.setHold()
 					held = " (the provider delivers the events of this block late)"
 				}
@@ -359,7 +368,7 @@ func TestC07Contract(t *testing.T) {
 				f.backend.Commit()
 				hist = append(hist, fmt.Sprintf("%s calls forceSettle on chain (time lock set: %v)", w.name, f.timeLocked(w.addr)))
 			case "withdraw", "withdrawTwice":
-				if rapid.IntRange(0, 4).Draw(rt, "withdrawOther") == 0 {
+				if !forced && rapid.IntRange(0, 4).Draw(rt, "withdrawOther") == 0 {
 					acct = spell(w, rapid.SampledFrom(spellings).Draw(rt, "withdrawSpelling"))
 				}
 				locked := f.timeLocked(w.addr)
@@ -401,7 +410,7 @@ func TestC07Contract(t *testing.T) {
 				}
 				second := op == "withdrawTwice"
 				acct2 := acct
-				if second && rapid.IntRange(0, 2).Draw(rt, "secondOther") == 0 {
+				if second && !forced && rapid.IntRange(0, 2).Draw(rt, "secondOther") == 0 {
 					acct2 = spell(w, rapid.SampledFrom(spellings).Draw(rt, "secondSpelling"))
 				}
 				funds := f.chainBalance(f.addr.Hex())
